@@ -21,6 +21,8 @@ SCHEMA = '''<xs:schema xmlns:xs="http://www.w3.org/2001/XMLSchema" elementFormDe
     <xs:element name="fx" type="xs:decimal" fixed="1.0" minOccurs="0"/>
     <xs:element name="val" type="Val" minOccurs="0" maxOccurs="unbounded"/>
     <xs:element name="bitem" type="Item" block="extension" minOccurs="0" maxOccurs="unbounded"/>
+    <xs:element ref="sh" minOccurs="0" maxOccurs="unbounded"/>
+    %(avelem)s
     <xs:any namespace="##other" processContents="lax" minOccurs="0" maxOccurs="unbounded"/>
    </xs:sequence>
    %(assert)s
@@ -61,11 +63,23 @@ SCHEMA = '''<xs:schema xmlns:xs="http://www.w3.org/2001/XMLSchema" elementFormDe
   </xs:complexContent>
  </xs:complexType>
  <xs:simpleType name="Val"><xs:restriction base="xs:integer"><xs:maxInclusive value="10"/></xs:restriction></xs:simpleType>
+ <xs:element name="sh" type="xs:string"/>
+ <xs:element name="sm" type="xs:string" substitutionGroup="sh"/>
+ %(avtype)s
  <xs:simpleType name="MyId"><xs:restriction base="xs:ID"/></xs:simpleType>
  <xs:simpleType name="ValSmall"><xs:restriction base="Val"><xs:maxInclusive value="5"/></xs:restriction></xs:simpleType>
 </xs:schema>
 '''
 ASSERT11 = '<xs:assert test="count(item) le 3"/>'
+AVELEM11 = '<xs:element name="av" type="AssertVal" minOccurs="0" maxOccurs="unbounded"/>'
+AVTYPE11 = ('<xs:simpleType name="AssertVal"><xs:restriction base="xs:integer"><xs:assertion test="$value lt 10"/>'
+            '</xs:restriction></xs:simpleType>')
+
+
+def schema_text(version):
+    v11 = version == '1.1'
+    return SCHEMA % {'assert': ASSERT11 if v11 else '', 'avelem': AVELEM11 if v11 else '', 'avtype': AVTYPE11 if v11 else ''}
+
 XSI = 'xmlns:xsi="http://www.w3.org/2001/XMLSchema-instance"'
 
 DOCS = {
@@ -82,6 +96,9 @@ DOCS = {
     'blocked': '<root %s><item k="1"/><bitem k="2" xsi:type="ItemExt"><sub n="1"/></bitem></root>' % XSI,
     'tok-type': '<root %s><item k="1" xsi:type="ItemTok" code="a  b"/><item k="2" code="c"/></root>' % XSI,
     'codes': '<root><item k="1" code="a  b"/><item k="2" code="a b"/></root>',
+    'subst': '<root><item k="1"/><sh>x</sh><sm>y</sm></root>',
+    'assert-lo': '<root><item k="1"/><av>5</av></root>',
+    'assert-hi': '<root><item k="1"/><av>50</av></root>',
     'val-type': '<root %s><item k="1"/><val xsi:type="ValSmall">7</val><val>7</val></root>' % XSI,
 }
 DOC_NAMES = sorted(DOCS)
@@ -90,8 +107,7 @@ OPS = ('is_valid', 'iter_errors', 'validate', 'decode', 'to_objects', 'hook-stop
 
 
 def build(version):
-    text = SCHEMA % {'assert': ASSERT11 if version == '1.1' else ''}
-    return VERSIONS[version](text)
+    return VERSIONS[version](schema_text(version))
 
 
 _ADDR = re.compile(r' at 0x[0-9a-fA-F]+')
